@@ -16,6 +16,7 @@ const (
 	verifFaultEmptyBody
 	verifFaultOversized
 	verifFaultTruncated
+	verifFaultStatus206
 	verifFaultN
 )
 
@@ -34,7 +35,7 @@ const verifNew2 = "||third.example^\n"
 // list, an error is reported exactly when no usable text was obtained, and a fresh
 // enough cached copy is used without any download.
 //
-//verif:harness name=H13a-refreshable tier=quick bounds="two consecutive refresh rounds of one list (the second 2 h or 1 min later, new list version, independent outcome); per round: cache file absent / present-and-fresh / present-and-stale; download outcome from {ok, connection error, 404, 500, empty body, oversized body, truncated transfer}, body length announced or streamed (Content-Length known / -1); temp-file creation and the atomic replace may fail (symbolic build only)" reach=downloaded,used-cache,failed,second-round maxpaths=200000
+//verif:harness name=H13a-refreshable tier=quick bounds="two consecutive refresh rounds of one list (the second 2 h or 1 min later, new list version, independent outcome); per round: cache file absent / present-and-fresh / present-and-stale; download outcome from {ok, connection error, 404, 500, 206 with part of the list, empty body, oversized body, truncated transfer}, body length announced or streamed (Content-Length known / -1); temp-file creation and the atomic replace may fail (symbolic build only)" reach=downloaded,used-cache,failed,second-round maxpaths=200000
 //verif:assume symbolic build: os/renameio/HTTP client calls are stubs over a ghost file system in which only CloseAtomicallyReplace changes the destination (rename(2) atomicity is the kernel's); native replay uses a real temp dir and a loopback HTTP server
 func VerifC13Refreshable() { verifC13Refreshable(2) }
 
